@@ -213,11 +213,7 @@ def davidson(A: LinearOperator, neig: int,
             Vnew = Vnew[..., :Vnew.shape[-2]]
         nadd = Vnew.shape[-1] - V.shape[-1]
         nguess = nguess + nadd
-        if M is not None:
-            MV_ = M.mm(Vnew)
-            V, R = tallqr(Vnew, MV=MV_)
-        else:
-            V, R = tallqr(Vnew)
+        V, R = tallqr(Vnew, M=M)
         AVnew = A.mm(V[..., -nadd:])  # (*BAM,na,nadd)
         AVnew = to_fortran_order(AVnew)
         AV = torch.cat((AV, AVnew), dim=-1)
@@ -247,7 +243,7 @@ def _set_initial_v(vinit_type: str,
 
     # orthogonalize V
     if isinstance(M, LinearOperator):
-        V, R = tallqr(V, MV=M.mm(V))
+        V, R = tallqr(V, M=M)
     else:
         V, R = tallqr(V)
     return V
